@@ -198,6 +198,34 @@ def dates_numbers_simple(rep: common.Reporter) -> dict:
     for cls, lexemes in simple.items():
         for raw in lexemes:
             check_lexeme(cls, raw, cls.__name__.lower())
+    # non-canonical lexemes followed by indent / value / raw_text assignments: value and raw text must keep
+    # describing each other and the raw text must stay ONE lexeme of the type
+    zoo = ['; c', ';c', ';', '\t; foo\n  ;bar', '  ; see:\n      ; nested', ';a\n; b', ';;x\n;', '    ;\n    ; x', '; a\r\n; b']
+    for raw in zoo:
+        if not tree.lexes_as(raw, 'BLOCK_COMMENT'):
+            continue
+        for seq in (['indent='], ['indent=  '], ['indent=\t', 'indent='], ['value=same'], ['indent=', 'value=same'], ['raw=same', 'indent=    ']):
+            n += 1
+            try:
+                t = models.BlockComment.from_raw_text(raw)
+                for stp in seq:
+                    k, _, a = stp.partition('=')
+                    if k == 'indent':
+                        t.indent = a
+                    elif k == 'value':
+                        t.value = t.value
+                    else:
+                        t.raw_text = t.raw_text
+                    again = models.BlockComment.from_raw_text(t.raw_text)
+                    if (again.indent, again.value) != (t.indent, t.value):
+                        rep.violation('C12/blockcomment/agree', {'what': f'{raw!r} after {seq}: raw text {t.raw_text!r} means '
+                                                                         f'{(again.indent, again.value)!r}, token says {(t.indent, t.value)!r}'})
+                        break
+                    if not tree.lexes_as(t.raw_text, 'BLOCK_COMMENT'):
+                        rep.violation('C12/blockcomment/lexeme', {'what': f'{raw!r} after {seq}: raw text {t.raw_text!r} is not one BLOCK_COMMENT lexeme'})
+                        break
+            except Exception as e:  # noqa: BLE001
+                rep.violation('C12/blockcomment/crash', {'what': f'{raw!r} after {seq}: {type(e).__name__}: {e}'})
     return {'value_and_lexeme_cases': n}
 
 
